@@ -326,6 +326,9 @@ func (e *Env) vjoin(cwd string, part string) error {
 		port := "x"
 		if gi == 1 {
 			sep, port = ps.JoinSep2, "y"
+			if ps.JoinHdr {
+				sep, port = "\x00", "hdr"
+			}
 		}
 		vs.Note("joined:" + port + ":" + raw)
 		if ps.JoinMod == "" && raw != "" {
